@@ -132,3 +132,92 @@ Proof.
                  inversion H2; subst. constructor; [assumption|constructor].
            ++ apply (tail_final_ne (T2 ++ [e; d]) j junk); [exact HZ|destruct T2; discriminate].
 Qed.
+
+(* ---- third pass: dot-dot fields directly under the root ------------------------------------------- *)
+Lemma get_pre : forall pre X junk j, (j <= length X)%nat ->
+  get ((pre ++ X) ++ 0 :: junk) (Z.of_nat (length pre) + Z.of_nat j) = nth j X 0.
+Proof.
+  intros pre X junk j H. replace (Z.of_nat (length pre) + Z.of_nat j) with (Z.of_nat (length pre + j)) by lia.
+  rewrite get_txt_nat by (rewrite app_length; lia). apply app_nth2_plus.
+Qed.
+
+Lemma nm_first_not_dd : forall n rest junk pre, nm n -> nonzero rest -> (rest = [] \/ hd 0 rest = SEP) ->
+  ((get ((pre ++ n ++ rest) ++ 0 :: junk) (Z.of_nat (length pre)) =? DOT) &&
+   (get ((pre ++ n ++ rest) ++ 0 :: junk) (Z.of_nat (length pre) + 1) =? DOT) &&
+   ((get ((pre ++ n ++ rest) ++ 0 :: junk) (Z.of_nat (length pre) + 2) =? SEP) ||
+    (get ((pre ++ n ++ rest) ++ 0 :: junk) (Z.of_nat (length pre) + 2) =? 0))) = false.
+Proof.
+  intros n rest junk pre ((Hs & Hz & Hne) & Hn) Hrz Hrest.
+  replace (Z.of_nat (length pre)) with (Z.of_nat (length pre) + Z.of_nat 0) at 1 by lia.
+  change 1 with (Z.of_nat 1). change 2 with (Z.of_nat 2).
+  destruct n as [|a [|b [|c n']]]; [congruence| | |].
+  - rewrite get_pre by (cbn; lia). cbn [nth app]. unfold isname in Hn. cbn in Hn. rewrite orb_false_r in Hn.
+    unfold nsd in Hn. apply andb_true_iff in Hn as [_ Hn]. apply negb_true_iff in Hn. rewrite Hn. reflexivity.
+  - rewrite !get_pre by (cbn [length app]; lia). cbn [nth app].
+    destruct ((a =? DOT) && (b =? DOT)) eqn:E; [|reflexivity].
+    apply andb_true_iff in E as [Ea Eb]. apply Z.eqb_eq in Ea, Eb. subst. discriminate.
+  - rewrite !get_pre by (cbn [length app]; lia). cbn [nth app].
+    unfold sepfree, nonzero in *. inversion Hs; subst. inversion H2; subst. inversion H4; subst.
+    inversion Hz; subst. inversion H8; subst. inversion H10; subst.
+    replace (c =? SEP) with false by lia. replace (c =? 0) with false by lia. rewrite andb_false_r. reflexivity.
+Qed.
+
+Lemma root_scan_D : forall D pre X junk fuel, allDD D ->
+  (X = [] \/ X = [[]] \/ exists n X', X = n :: X' /\ nm n /\ nonzero (join_elems X)) ->
+  (length D < fuel)%nat ->
+  root_dotdot_scan fuel ((pre ++ join_elems (D ++ X)) ++ 0 :: junk)
+                   (Z.of_nat (length (pre ++ join_elems (D ++ X)))) (Z.of_nat (length pre))
+  = Some (Z.of_nat (length (pre ++ join_elems (D ++ X)) - length (join_elems X))).
+Proof.
+  induction D as [|d D IH]; intros pre X junk fuel HD HX Hf.
+  - (* nothing (more) to strip *)
+    destruct fuel as [|f]; [lia|]. cbn [app root_dotdot_scan].
+    replace (length (pre ++ join_elems X) - length (join_elems X))%nat with (length pre) by (rewrite app_length; lia).
+    destruct HX as [-> | [-> | (n & X' & -> & Hn & Hz)]].
+    + cbn [join_elems]. rewrite app_nil_r. replace (Z.of_nat (length pre) <? Z.of_nat (length pre)) with false by lia. reflexivity.
+    + cbn [join_elems]. rewrite app_nil_r. replace (Z.of_nat (length pre) <? Z.of_nat (length pre)) with false by lia. reflexivity.
+    + assert (EJ : exists rest, join_elems (n :: X') = n ++ rest /\ nonzero rest /\ (rest = [] \/ hd 0 rest = SEP)).
+      { destruct X' as [|x X''].
+        - exists []. rewrite app_nil_r. repeat split; [constructor|left; reflexivity].
+        - exists (SEP :: join_elems (x :: X'')). repeat split; [|right; reflexivity].
+          change (join_elems (n :: x :: X'')) with (n ++ SEP :: join_elems (x :: X'')) in Hz.
+          unfold nonzero in *. apply Forall_app in Hz. apply Hz. }
+      destruct EJ as (rest & -> & Hrz & Hrest).
+      rewrite <- andb_assoc. rewrite <- andb_assoc.
+      replace ((get ((pre ++ n ++ rest) ++ 0 :: junk) (Z.of_nat (length pre)) =? DOT) &&
+               ((get ((pre ++ n ++ rest) ++ 0 :: junk) (Z.of_nat (length pre) + 1) =? DOT) &&
+                ((get ((pre ++ n ++ rest) ++ 0 :: junk) (Z.of_nat (length pre) + 2) =? SEP) ||
+                 (get ((pre ++ n ++ rest) ++ 0 :: junk) (Z.of_nat (length pre) + 2) =? 0)))) with false.
+      * rewrite andb_false_r. reflexivity.
+      * symmetry. rewrite andb_assoc. apply nm_first_not_dd; assumption.
+  - inversion HD; subst. destruct fuel as [|f]; [lia|]. cbn [length] in Hf.
+    cbn [root_dotdot_scan].
+    set (T := pre ++ join_elems ((DD :: D) ++ X)).
+    destruct (D ++ X) as [|y Y] eqn:EY.
+    + (* the last ".." with nothing after it *)
+      apply app_eq_nil in EY as [-> ->]. cbn [app join_elems length] in *.
+      assert (ET : T = pre ++ DD) by reflexivity.
+      replace (Z.of_nat (length pre)) with (Z.of_nat (length pre) + Z.of_nat 0) at 2 by lia.
+      change 1 with (Z.of_nat 1). change 2 with (Z.of_nat 2).
+      rewrite ET. unfold DD. rewrite !get_pre by (cbn; lia). cbn [nth].
+      replace (Z.of_nat (length pre) <? Z.of_nat (length (pre ++ [DOT; DOT]))) with true by (rewrite app_length; cbn [length]; lia).
+      rewrite !Z.eqb_refl. replace (0 =? SEP) with false by reflexivity. cbn [andb orb].
+      destruct f as [|f']; [lia|]. cbn [root_dotdot_scan].
+      replace (Z.of_nat (length pre) + Z.of_nat 2 <? Z.of_nat (length (pre ++ [DOT; DOT]))) with false
+        by (rewrite app_length; cbn [length]; lia).
+      cbn [andb]. f_equal. rewrite app_length. cbn [length]. lia.
+    + assert (EJ : join_elems ((DD :: D) ++ X) = DD ++ SEP :: join_elems (D ++ X)).
+      { cbn [app]. rewrite EY. reflexivity. }
+      assert (ET : T = pre ++ (DD ++ [SEP]) ++ join_elems (D ++ X)).
+      { unfold T. rewrite EJ. rewrite <- !app_assoc. reflexivity. }
+      assert (ET' : T = (pre ++ DD ++ [SEP]) ++ join_elems (D ++ X)) by (rewrite ET, <- !app_assoc; reflexivity).
+      replace (Z.of_nat (length pre)) with (Z.of_nat (length pre) + Z.of_nat 0) at 2 by lia.
+      change 1 with (Z.of_nat 1). change 2 with (Z.of_nat 2).
+      rewrite ET. rewrite !get_pre by (unfold DD; rewrite !app_length; cbn [length]; lia). unfold DD. cbn [nth app].
+      assert (L : Z.of_nat (length pre) <? Z.of_nat (length (pre ++ DOT :: DOT :: SEP :: join_elems (D ++ X))) = true)
+        by (apply Z.ltb_lt; rewrite app_length; cbn [length]; lia).
+      rewrite L. rewrite !Z.eqb_refl. cbn [andb orb].
+      replace (Z.of_nat (length pre) + 3) with (Z.of_nat (length (pre ++ DD ++ [SEP]))) by (unfold DD; rewrite !app_length; cbn [length]; lia).
+      change (pre ++ DOT :: DOT :: SEP :: join_elems (D ++ X)) with (pre ++ (DD ++ [SEP]) ++ join_elems (D ++ X)).
+      rewrite <- ET. rewrite ET'. rewrite (IH (pre ++ DD ++ [SEP]) X junk f H2 HX ltac:(lia)). reflexivity.
+Qed.
